@@ -13,6 +13,7 @@ import Driver.DiscDrv
 import Driver.XmlDrv
 import Driver.FaultsDrv
 import Driver.LegsDrv
+import Driver.SigDrv
 open Cgreen.Drv
 
 /-- Read all of stdin as lines. -/
@@ -51,6 +52,9 @@ def main (args : List String) : IO UInt32 := do
     return 0
   | ["discover"] =>
     for l in lines do out.putStrLn (Cgreen.Drv.DS.evalLine l)
+    return 0
+  | ["sigint"] =>
+    for l in lines do out.putStrLn (Cgreen.Drv.SG.evalLine l)
     return 0
   | ["timeout"] =>
     for l in lines do out.putStrLn (Cgreen.Drv.TM.evalLine l)
